@@ -232,6 +232,39 @@ def check_functions(ctx):
         want = _call(lambda: hexbands(model_bands(im.convert(t))))
         if a[0] != "ok" or want[0] != "ok" or a[1] != want[1]:
             ctx.disagree(f"samples: Image.convert {s} -> {t} differs from convPixel", {"src": s, "dst": t, "seed": seed})
+    # palette images: the colour of `convert(dst)` and the alpha of `convert("RGBA")` for every palette index
+    reqs, cases = [], []
+    for tr_kind in ("-", "i", "t", "tshort"):
+        for t in ["L", "RGB", "RGBA", "CMYK"]:
+            pal = bytes(rng.randrange(256) for _ in range(768))
+            im = Image.fromarray(np.arange(256, dtype=np.uint8).reshape(16, 16), "P")
+            im.putpalette(list(pal))
+            if tr_kind == "i":
+                k = rng.randrange(256)
+                im.info["transparency"] = k
+                tr = f"i{k}"
+            elif tr_kind in ("t", "tshort"):
+                tb = bytes(rng.randrange(256) for _ in range(256 if tr_kind == "t" else rng.randrange(1, 200)))
+                im.info["transparency"] = tb
+                tr = "t" + tb.hex()
+            else:
+                tr = "-"
+            reqs.append(("pxs.pconv", t, pal.hex(), tr))
+            cases.append((t, tr_kind, im))
+    for (t, tr_kind, im), a in zip(cases, drv.batch(reqs)):
+        ctx.corr_cases += 1
+        ctx.count(("samples-palette", t, tr_kind))
+        conv = _call(lambda: np.asarray(im.convert(t)).reshape(256, -1)[:, :NCOL[t]])
+        alpha = _call(lambda: np.asarray(im.convert("RGBA").getchannel("A")).reshape(-1) if im.has_transparency_data
+                      else np.full(256, 255, np.uint8))
+        if a[0] != "ok" or conv[0] != "ok" or alpha[0] != "ok":
+            ctx.disagree("samples: palette conversion fails or the model does", {"dst": t, "transparency": tr_kind})
+            continue
+        mpx = [bytes.fromhex(x)[:NCOL[t]] if x != "x" else None for x in a[1].split(";")]
+        if any(m is None or bytes(int(v) for v in c) != m for m, c in zip(mpx, conv[1])):
+            ctx.disagree(f"samples: P -> {t} differs from convPalettePixel", {"dst": t, "transparency": tr_kind})
+        if bytes.fromhex(a[2]) != bytes(alpha[1].tolist()):
+            ctx.disagree("samples: the alpha of a palette image differs from pAlpha", {"dst": t, "transparency": tr_kind})
     return tables
 
 
@@ -294,6 +327,81 @@ def check_concrete(ctx):
         ctx.count(("samples-doc", case["src"], int(comp), str(case["perms"])[:20]))
         ctx.hist("samples_doc", case["src"])
         _guard(ctx, case, compare_doc, ctx, case, img, comp, m)
+
+
+def check_doc_depths(ctx, tables, meta_of):
+    """the exports of DOCUMENTS at every depth (frompil only makes 8-bit documents): a document made with PSDImage.new at
+    depth 8 / 16 / 32 receives, as its merged image, the planes the import arithmetic makes of bands holding every sample
+    value (the model's `storeBytes`), is saved, reopened and exported; model: the routes of the metadata applied with the
+    concrete arithmetic (`pxs.docexport`)."""
+    from psd_tools.constants import Compression
+    rng = ctx.rng
+    drv = ctx.driver()
+    enc = {}
+    for d in DEPTHS:
+        raw = bytes.fromhex(tables[d][2])
+        n = len(raw) // 256
+        enc[d] = [raw[i * n:(i + 1) * n] for i in range(256)]
+    reqs, cases = [], []
+    for dm in DOC_MODES:
+        for d in DEPTHS:
+            perms = perms_for(rng, DOC_CH[dm])
+            comp = rng.choice(list(Compression))
+            planes = [b"".join(enc[d][int(v)] for v in perm_band(m, c).reshape(-1)) for m, c in perms]
+            case = {"kind": "sample-docdepth", "doc": dm, "depth": d, "perms": perms, "compression": int(comp)}
+
+            def build(dm=dm, d=d, planes=planes, comp=comp):
+                psd = new_doc(dm, (16, 16), d)
+                psd._record.image_data.compression = comp
+                psd._record.image_data.set_data(planes, psd._record.header)
+                return pc.save_reopen(psd)[0]
+            r = _call(build)
+            if r[0] == "err":
+                ctx.disagree(f"samples/docdepth: building a {dm} document at depth {d} raises {r[1]}", {**case, "error": r[1:]})
+                continue
+            psd = r[1]
+            mt, ids, lc, vi = meta_of(psd)
+            reqs.append(("pxs.docexport", CMODE_OF[dm], psd.channels, d, 16, 16, "1" if mt else "0", ",".join(map(str, ids)) or "-", lc, vi,
+                         ";".join(p.hex() for p in planes)))
+            cases.append((case, psd))
+    for (case, psd), m in zip(cases, drv.batch(reqs)):
+        ctx.corr_cases += 1
+        ctx.count(("samples-docdepth", case["doc"], case["depth"]))
+        ctx.hist("samples_docdepth", f"{case['doc']}/{case['depth']}")
+        _guard(ctx, case, compare_exports, ctx, case, psd, m, "samples/docdepth")
+
+
+def compare_exports(ctx, case, psd, m, label):
+    if m[0] != "ok":
+        ctx.disagree(f"{label}: model answers " + "/".join(m)[:80], case)
+        return
+    m_pil, m_np = m[1:3]
+    out = _call(lambda: psd.topil(apply_icc=False))
+    if out[0] != "ok" or out[1] is None or ":" not in m_pil:
+        if not (out[0] == "err" and m_pil.startswith("!")) and not (out[0] == "ok" and out[1] is None and m_pil == "none"):
+            ctx.disagree(f"{label}: topil() fails or the model does", {**case, "impl": out[1:] if out[0] == "err" else None, "model": m_pil[:20]})
+    else:
+        mm, mb = m_pil.split(":")
+        g = hexbands(pc.bands_u8(out[1]))
+        if out[1].mode != mm or g != mb:
+            ctx.disagree(f"{label}: topil() differs from the model (exact)", {**case, "impl_mode": out[1].mode, "model_mode": mm,
+                                                                              "where": first_diff(g, mb, 1)})
+    arr = _call(lambda: psd.numpy())
+    if arr[0] != "ok" or m_np.startswith("!"):
+        ctx.disagree(f"{label}: numpy() fails or the model does", {**case, "impl": arr[1:] if arr[0] == "err" else None})
+        return
+    a = arr[1]
+    exp = [np.array([int(x) for x in ch.split(",")], dtype=np.uint32) for ch in m_np.split(";")]
+    if a.shape[2] != len(exp):
+        ctx.disagree(f"{label}: numpy() channel count differs", {**case, "impl": a.shape[2], "model": len(exp)})
+        return
+    for k, e in enumerate(exp):
+        gb = bits_of(a[:, :, k]).reshape(-1)
+        if not np.array_equal(gb, e):
+            i = int(np.nonzero(gb != e)[0][0])
+            ctx.disagree(f"{label}: numpy() differs from the model (float32 bits)",
+                         {**case, "channel": k, "index": i, "impl_bits": int(gb[i]), "model_bits": int(e[i])})
+            break
 
 
 def compare_layer(ctx, case, img, comp, m):
